@@ -28,7 +28,7 @@ def small_cfg(rng, nants=1, period=None):
     return c
 
 
-KINDS = ["default-dict", "array-then-single", "same-backend", "caller-dict", "single-then-array", "same-backend", "plain", "same-backend"]
+KINDS = ["default-dict", "array-then-single", "same-backend", "caller-dict", "single-then-array", "same-backend", "plain", "same-backend", "from-data"]
 
 
 def gen_pair(rng, i=None):
@@ -65,6 +65,17 @@ def gen_pair(rng, i=None):
         hist = dict(steps=[dict(cfg=a, dict="own", source="s", backend="b1"), dict(cfg=a, dict="own", source="s", backend="b1")])
         base = dict(steps=[dict(cfg=a, dict="own", source="s", backend="b1"), dict(cfg=a, dict="own", source="s", backend="b2")])
         calls = [(1, a), (2, a)]
+    elif k == "from-data":
+        # a recording with caller cards, then an injection onto it (input header cards are carried over); same scenario on both sides:
+        # what is compared is run-to-run identity across processes (with different string-hash seeds)
+        a = small_cfg(rng)
+        a["load_template"] = rng.random() < 0.5
+        cards = dict(("SITE%s" % ch, "v%d" % j) for j, ch in enumerate("ABCDEFG"[:rng.randint(3, 7)]))
+        cards["N1"] = 5
+        b = dict(a, seed=a["seed"] + 1, noise=[[0.0, 0.1]])
+        hist = dict(steps=[dict(cfg=a, dict="own", cards=cards), dict(cfg=b, dict="own", input=0, source="inj", backend="binj")])
+        base = hist
+        calls = [(1, a)]
     else:
         a = small_cfg(rng)
         hist = dict(steps=[dict(cfg=a, dict="own")])
@@ -110,7 +121,7 @@ def run(ctx):
     quick = ctx.tier == "quick"
     ctx.rule = ("pairs of processes: (history ; recording) vs (recording alone) for default-dictionary recordings, array-then-single and "
                 "single-then-array, a caller dictionary reused, one backend recording twice vs a fresh backend (quantiser periods -1/1/2/3), "
-                "plus the same scenario twice (determinism); frames from five construction routes copied and pickled, mutated on either "
+                "an injection onto a recording with caller cards (from_data), plus the same scenario in another process started with a different PYTHONHASHSEED (determinism); frames from five construction routes copied and pickled, mutated on either "
                 "side; seed sameness/difference for frames, antennas, arrays, channelised-noise estimate; AST scan for unseeded randomness; "
                 "non-trivial = scenario with a history; distinct = distinct scenario")
     ctx.assumptions = ["numpy's generators are deterministic functions of their seed (not a theorem; checked by running twice)",
@@ -120,7 +131,8 @@ def run(ctx):
     for (_, hist, base, _) in pairs:
         payloads.append(dict(mode="scenario", cases=[hist]))
         payloads.append(dict(mode="scenario", cases=[base]))
-        payloads.append(dict(mode="scenario", cases=[hist]))      # determinism: same scenario in a third process
+        # determinism: the same scenario in a third process, started with another string-hash seed (set / dict-of-set iteration order)
+        payloads.append(dict(mode="scenario", cases=[hist], _env={"PYTHONHASHSEED": str(1 + len(payloads) % 7)}))
     outs = C.run_impl_parallel("c12_impl", payloads)
     # model: first PKTIDX of every call (object 0 = default dict, 1 = caller dict, 2.. = fresh)
     exprs = []
@@ -149,7 +161,7 @@ def run(ctx):
             key = {"default-dict": "default-dict-history", "array-then-single": "default-dict-history", "single-then-array": "default-dict-history",
                    "caller-dict": "caller-dict-mutated", "same-backend": "backend-history"}.get(k, "history")
             ctx.impl_violation(key, "what the last recording wrote depends on earlier recordings in the process (%s): %s" % (k, what), small)
-        if mvals[i] is not None and h["info"] and "pktidx" in h["info"][0]:
+        if k != "from-data" and mvals[i] is not None and h["info"] and "pktidx" in h["info"][0]:
             got = int(h["info"][0]["pktidx"][0])
             if got != mvals[i][-1]:
                 ctx.mismatch("%s: model says the last recording starts at PKTIDX %d, implementation %d" % (k, mvals[i][-1], got), small)
